@@ -124,7 +124,7 @@ class MonitoredContainer(Generic[T], ABC):
         :param add_relation_to_the_graph: Whether to add the relation to the graph or not
         :return: Whether the value was added or not
         """
-        if value in self:
+        if self._holds(value):
             return False
         self._add_item(
             value,
@@ -132,6 +132,15 @@ class MonitoredContainer(Generic[T], ABC):
             add_relation_to_the_graph=add_relation_to_the_graph,
         )
         return True
+
+    def _holds(self, value: Symbol) -> bool:
+        """
+        Whether the value is already in the container. Symbols are identified by identity (as in the symbol graph),
+        not by equality, wherever the container type can hold two equal values.
+
+        :param value: The value to look for
+        """
+        return value in self
 
     @abstractmethod
     def _remove_item(self, item):
@@ -213,6 +222,10 @@ class MonitoredList(MonitoredContainer, list):
     def insert(self, idx, item):
         item = self._on_add(item)
         super().insert(idx, item)
+
+    def _holds(self, value) -> bool:
+        # a list can hold two distinct symbols that compare equal
+        return any(item is value for item in self)
 
     def _remove_item(self, item):
         self.remove(item)
